@@ -370,7 +370,14 @@ def run_case(case, ctx):
                 if cobj is not c.obj:
                     ctx.viol("child-identity", {"op_index": opi, "op": op, "path": cpath})
                     return False
-                if root_obj.get(cpath) is not cobj:
+                try:
+                    found = root_obj.get(cpath)
+                except InvariantBroken:
+                    raise
+                except Exception as e:
+                    ctx.viol(f"get-existing-raises", {"op_index": opi, "op": op, "path": cpath, "exc": repr(e)})
+                    return False
+                if found is not cobj:
                     ctx.viol("get-by-extended-key", {"op_index": opi, "op": op, "path": cpath})
                     return False
                 if cobj.extended_key() != root_obj.key + "." + cpath:
